@@ -265,6 +265,10 @@ func (b *BtcSim) userAddress(r *Rand, kind string) string {
 		return mk(btcutil.NewAddressWitnessPubKeyHash(h160, other))
 	case "foreign-legacy":
 		return mk(btcutil.NewAddressPubKeyHash(h160, other))
+	case "padded":
+		// a valid address of this network wrapped in white space (the contract's receiver field is a free-form string)
+		a := mk(btcutil.NewAddressWitnessPubKeyHash(h160, net))
+		return pick(r, []string{" " + a, a + " ", a + "\n", "\t" + a, " " + a + " "})
 	case "garbage":
 		return fmt.Sprintf("bc1q%x", r.Bytes(9))
 	case "empty":
@@ -276,4 +280,4 @@ func (b *BtcSim) userAddress(r *Rand, kind string) string {
 }
 
 var payableKinds = []string{"p2pkh", "p2sh", "p2wpkh", "p2wsh", "p2tr"}
-var unpayableKinds = []string{"p2pk", "foreign", "foreign-legacy", "garbage", "empty", "long"}
+var unpayableKinds = []string{"p2pk", "foreign", "foreign-legacy", "garbage", "empty", "long", "padded", "padded"}
